@@ -1,6 +1,8 @@
 /-
 C07 — Standard Monte-Carlo price, error and control-variate adjustment are textbook.
 Property theorems about RpylibModel/Model/Stats.lean, for every number of paths and every sample.
-The theorems live in the lemma files imported here (one payoff component: Lemmas/C07Basic.lean).
+The theorems live in the lemma files imported here (one payoff component: Lemmas/C07Basic.lean; vector payoffs, k controls,
+the two-control kernel incl. the pseudo-inverse branch: Lemmas/C07Vec.lean).
 -/
 import RpylibModel.Proofs.Lemmas.C07Basic
+import RpylibModel.Proofs.Lemmas.C07Vec
